@@ -497,8 +497,6 @@ Proof.
 Qed.
 
 (* ---- zones: the offsets the conversions use are those of the table ---- *)
-Definition zone_offsets (z : zone) : list Z := off0 z :: map snd (trans z).
-
 Lemma offset_at_go_in tr t : forall cur, In (offset_at_go cur tr t) (cur :: map snd tr).
 Proof.
   induction tr as [|[T o] rest IH]; intros cur; cbn [offset_at_go map snd].
@@ -521,6 +519,14 @@ Proof. apply wall_offset_go_in. Qed.
 (* any two UTC offsets of the zone's table differ by at most S *)
 Definition zone_spread_le (z : zone) (S : Z) : Prop :=
   forall o o', In o (zone_offsets z) -> In o' (zone_offsets z) -> o - o' <= S.
+
+(* the executable check the harness applies to every exported zone table gives the hypothesis *)
+Lemma zone_spread_ok_le z : zone_spread_ok z = true -> zone_spread_le z (DAY / 2).
+Proof.
+  unfold zone_spread_ok, zone_spread_le. intros H o o' Ho Ho'.
+  rewrite forallb_forall in H. specialize (H o Ho). rewrite forallb_forall in H.
+  specialize (H o' Ho'). apply Z.leb_le in H. unfold DAY in *. lia.
+Qed.
 
 (* Every occurrence the window [A, ..) can see lies at or after the rrule dtstart: an occurrence
    on a local date before dtstart ends at or before A.  Needs: the pattern's start_seconds within
@@ -560,4 +566,79 @@ Proof.
   assert (Hd' : d * DAY <= (sd + anchor_slack (r_freq r) - 1) * DAY) by (unfold DAY; nia).
   unfold ws. unfold t0, lookback_buffer in *.
   unfold DAY in *. nia.
+Qed.
+
+(* ------------------------------------------------------------------------------------------ *)
+(* anchor_series: seen from the rrule dtstart, the series is the same series                   *)
+
+Lemma s_base_base_day r : s_base r = base_day r.
+Proof. unfold s_base, base_day, local_day. destruct (r_anchor r); reflexivity. Qed.
+
+Lemma mod_shift_iff p pa pb k :
+  0 < k -> (pa - pb) mod k = 0 -> ((p - pa) mod k =? 0) = ((p - pb) mod k =? 0).
+Proof.
+  intros Hk H.
+  replace (p - pb) with ((p - pa) + (pa - pb)) by ring.
+  rewrite Z.add_mod by lia. rewrite H, Z.add_0_r, Z.mod_mod by lia. reflexivity.
+Qed.
+
+(* The reference series built from the rrule dtstart a = safe_anchor (phase counted from a's
+   period, missing BYxxx parts taken from a) has the same dates as the series built from the base
+   anchor date — whatever look-back date led to a. *)
+Theorem anchor_series (r : rule) (sd a : Z) :
+  0 < r_interval r ->
+  safe_anchor r sd = Some a ->
+  forall c, matches_s (series_from r a) c = matches_s (series_of r) c.
+Proof.
+  intros Hk Ha c.
+  pose proof (anchor_phase r sd a Hk Ha) as Hph.
+  pose proof (anchor_template r sd a Hk Ha) as Htm.
+  unfold series_of. rewrite s_base_base_day.
+  set (b := base_day r) in *.
+  (* the two series differ in the base period only *)
+  assert (E : series_from r a =
+              mkSeries (e_freq (series_from r b)) (e_interval (series_from r b))
+                       (period_of (r_freq r) (cdate_of a))
+                       (e_bymonth (series_from r b)) (e_bymonthday (series_from r b))
+                       (e_byday (series_from r b)) (e_nth_in_year (series_from r b))
+                       (e_bysetpos (series_from r b))).
+  { unfold series_from. cbn [e_freq e_interval e_bymonth e_bymonthday e_byday e_nth_in_year e_bysetpos].
+    destruct (r_freq r); cbn [freq_eqb andb orb] in *; rewrite ?andb_false_r; cbn [andb orb].
+    - reflexivity.
+    - rewrite Htm. reflexivity.
+    - rewrite Htm. reflexivity.
+    - destruct Htm as [Hd Hm]. rewrite Hd, Hm. reflexivity. }
+  rewrite E. clear E.
+  set (sb := series_from r b).
+  assert (Hfreq : e_freq sb = r_freq r) by reflexivity.
+  assert (Hint : e_interval sb = r_interval r) by reflexivity.
+  assert (Hbp : e_base_period sb = period_of (r_freq r) (cdate_of b)) by reflexivity.
+  assert (Hfilt : forall x, filters_ok (mkSeries (e_freq sb) (e_interval sb) (period_of (r_freq r) (cdate_of a))
+                                          (e_bymonth sb) (e_bymonthday sb) (e_byday sb) (e_nth_in_year sb)
+                                          (e_bysetpos sb)) x = filters_ok sb x).
+  { intros x. destruct sb. reflexivity. }
+  unfold matches_s.
+  replace (in_phase (mkSeries (e_freq sb) (e_interval sb) (period_of (r_freq r) (cdate_of a))
+                              (e_bymonth sb) (e_bymonthday sb) (e_byday sb) (e_nth_in_year sb)
+                              (e_bysetpos sb)) c) with (in_phase sb c).
+  2:{ unfold in_phase. cbn [e_freq e_interval e_base_period]. rewrite Hbp, Hint, Hfreq.
+      symmetry. apply mod_shift_iff; assumption. }
+  destruct (in_phase sb c); [|reflexivity].
+  rewrite Hfilt. destruct (filters_ok sb c); [|reflexivity].
+  unfold setpos_ok. cbn [e_bysetpos e_freq].
+  destruct (is_nil (e_bysetpos sb)); [reflexivity|].
+  rewrite (filter_ext _ _ Hfilt). reflexivity.
+Qed.
+
+Corollary anchor_before_checked_zone (r : rule) (A a d : Z) (i : ivl) :
+  0 < r_interval r ->
+  0 <= r_sod r < DAY ->
+  zone_spread_ok (r_zone r) = true ->
+  safe_anchor r (local_day (r_zone r) (A - lookback_buffer r)) = Some a ->
+  d < a ->
+  occurrence_to_interval r d = Some i ->
+  fend i <= A.
+Proof.
+  intros Hk Hs Hz. apply (anchor_before r A a d (DAY / 2) i Hk Hs (zone_spread_ok_le _ Hz)).
+  unfold DAY. lia.
 Qed.
